@@ -36,17 +36,30 @@ def conc_str(val, cu):
     return f"{float(val / mult):.12g} {cu}"
 
 
+THOROUGH = {'on': False}
+SOLUTES_THOROUGH = SOLUTES + [['nacl', 'na2so4', 'dmso'], ['dmso', 'tea'], ['na2so4'], ['tea']]
+LEVELS_THOROUGH = dict(LEVELS, **{'very-dilute': F(400, 1000), 'concentrated': F(8, 10000), 'far-infeasible': F(-20, 1000)})
+TARGET['tea'] = F(1, 100)
+Q_UNITS_THOROUGH = {'solid': ['g', 'mg', 'ug', 'kg', 'mol', 'mmol', 'umol', 'mL', 'uL'],
+                    'liquid': ['g', 'mg', 'kg', 'mol', 'mmol', 'umol', 'L', 'mL', 'uL', 'dL'],
+                    'enzyme': ['U', 'mg', 'ug', 'g', 'mL', 'uL']}
+T_UNITS_THOROUGH = ['L', 'mL', 'uL', 'dL', 'g', 'mg', 'kg', 'mol', 'mmol']
+
+
 def specs(vidx):
     """Yield JSON-able specifications with the data needed to build them."""
     kinds = {n: s[0] for n, s in e1.VALUATIONS[vidx].items()}
-    for solutes in SOLUTES:
+    th = THOROUGH['on']
+    for solutes in (SOLUTES_THOROUGH if th else SOLUTES):
         k0 = kinds[solutes[0]]
         for solvent in SOLVENTS:
-            for level in LEVELS:
+            if solvent in solutes:
+                continue          # a substance dissolved in itself is not a specification
+            for level in (LEVELS_THOROUGH if th else LEVELS):
                 for mode in ('ct', 'cq', 'qt'):
                     cus = CONC_UNITS[k0] if 'c' in mode else [None]
-                    qus = Q_UNITS[k0] if 'q' in mode else [None]
-                    tus = T_UNITS if 't' in mode else [None]
+                    qus = (Q_UNITS_THOROUGH if th else Q_UNITS)[k0] if 'q' in mode else [None]
+                    tus = (T_UNITS_THOROUGH if th else T_UNITS) if 't' in mode else [None]
                     for cu, qu, tu in itertools.product(cus, qus, tus):
                         yield {'solutes': solutes, 'solvent': solvent, 'level': level, 'mode': mode, 'cu': cu, 'qu': qu,
                                'tu': tu, 'broadcast': False}
@@ -94,7 +107,7 @@ def build_spec(pp, subs, sp):
         rsv = ref.rsub(solvent)
         sol_measure = lambda u: ref.per_base(rsv, u)                           # noqa  (per mol of solvent)
         sol_vol = ref.per_base(rsv, 'L')
-    y = LEVELS[sp['level']] / sol_vol        # solvent unknown: mol of pure solvent, or fraction of the container
+    y = LEVELS_THOROUGH[sp['level']] / sol_vol        # solvent unknown: mol of pure solvent, or fraction of the container
     x = [TARGET[n] for n in sp['solutes']]
     kw = {}
     n = len(solutes)
@@ -367,6 +380,7 @@ def run(col):
                         "values are written with 12 significant digits; post-conditions are checked to 1e-6 relative, the bound "
                         "the implementation itself enforces on its residuals"]
     vals = [col.seed % 3] if col.tier == 'quick' else [0, 1, 2]
+    THOROUGH['on'] = col.tier == 'thorough'
     for v in vals:
         _G.update(pp=pp, vidx=v)
         sps = list(specs(v))
